@@ -59,6 +59,24 @@ struct C20 : Prop {
 			}
 			se.set("start_bus", sev);
 		}
+		// a later board (configuration order) leaves the bus while the start-up still waits for the feature confirmations of an earlier one:
+		// triggered by the arrival of the earlier board's first FEATURE_SET at the bus, so that the notice is processed before the later board's turn
+		{
+			std::vector<size_t> withf; for (size_t i = 0; i < w.boards.size(); i++) if (w.boards[i].present && !w.boards[i].features.empty()) withf.push_back(i);
+			if (withf.size() >= 2 && r.chance(300)) {
+				size_t ia = withf[r.below(withf.size() - 1)];
+				std::vector<size_t> later; for (size_t i : withf) if (i > ia && !w.boards[i].is_iface() && !w.boards[i].addr.empty() && w.boards[i].addr != w.boards[ia].addr) later.push_back(i);
+				// (not beneath the earlier board, and not its ancestor)
+				std::vector<size_t> ok; for (size_t i : later) { const auto &a = w.boards[ia].addr, &b = w.boards[i].addr; bool anc = b.size() < a.size() && std::equal(b.begin(), b.end(), a.begin()); if (!anc) ok.push_back(i); }
+				if (!ok.empty() && !(w.boards[ia].addr.empty() && false)) {
+					size_t ib = ok[r.below(ok.size())];
+					J tl = J::obj(); tl.set("on_feature_set_to", pc::jaddr(w.boards[ia].addr)); tl.set("lost", pc::jaddr(w.boards[ib].addr)); plan.set("lost_during_features", tl);
+					// the earlier board confirms slowly (0.4-0.8 s): the notice is certainly processed while the start-up still waits for it
+					// (a board that vanishes while its OWN confirmations are awaited is a different story: that wait has no time-out)
+					J bus = plan["bus"]; J td = J::arr(); J e = J::arr(); e.push((int) MSG_FEATURE); e.push(1); e.push((int) r.range(400, 800)); td.push(e); bus.set("type_delays", td); plan.set("bus", bus);
+				}
+			}
+		}
 		J phs = J::arr();
 		{ J ph = J::obj(); ph.set("check", true); J post = J::arr(); post.push("quiesce"); ph.set("post", post); phs.push(ph); }
 		if (r.chance(400)) {
@@ -77,7 +95,23 @@ struct C20 : Prop {
 	size_t checked_from = 0;
 	uint64_t transcripts = 0, features_checked = 0, initials_checked = 0, absent_with_config = 0, connected_with_config = 0;
 
-	void attach(Engine &e) override { world = cfg::from_json(e.plan["world"]); checked_from = 0; transcripts = features_checked = initials_checked = absent_with_config = connected_with_config = 0; }
+	bool lost_fired = false; uint64_t lost_during_features = 0;
+	void attach(Engine &e) override {
+		world = cfg::from_json(e.plan["world"]); checked_from = 0; transcripts = features_checked = initials_checked = absent_with_config = connected_with_config = 0;
+		lost_fired = false; lost_during_features = 0;
+		e.bus.on_request = nullptr;
+		if (e.plan.has("lost_during_features")) {
+			std::vector<uint8_t> trig = j_bytes(e.plan["lost_during_features"]["on_feature_set_to"]), lost = j_bytes(e.plan["lost_during_features"]["lost"]);
+			e.bus.on_request = [this, &e, trig, lost](bus::Node &n, const ref::Msg &m) {
+				if (!lost_fired && m.type == MSG_FEATURE_SET && n.addr == trig) {
+					lost_fired = true; lost_during_features++;
+					J ev = J::obj(); ev.set("topo", "lost"); ev.set("node", pc::jaddr(lost));
+					e.topo_event(ev);
+				}
+				return false;
+			};
+		}
+	}
 
 	static ref::Msg mk(const std::vector<uint8_t> &addr, uint8_t type, std::vector<uint8_t> d) { ref::Msg m; m.addr = addr; m.type = type; m.data = d; return m; }
 
@@ -165,7 +199,7 @@ struct C20 : Prop {
 	void coverage(Engine &e, J &f) override {
 		f.set("nontrivial", absent_with_config > 0 && connected_with_config > 0);
 		f.set("shape", (long long) (pc::shape_hash(e.plan) >> 1) ^ (long long) (fnv1a(FNV_INIT, e.plan["configs"].dump().data(), e.plan["configs"].dump().size()) >> 2));
-		J pr = J::obj(); pr.set("transcripts_checked", (long long) transcripts); pr.set("features_checked", (long long) features_checked); pr.set("initial_values_checked", (long long) initials_checked);
+		J pr = J::obj(); pr.set("transcripts_checked", (long long) transcripts); pr.set("features_checked", (long long) features_checked); pr.set("initial_values_checked", (long long) initials_checked); pr.set("board_lost_while_waiting_for_an_earlier_boards_features", (long long) lost_during_features);
 		pr.set("absent_boards_with_config", (long long) absent_with_config);
 		f.set("probes", pr);
 	}
